@@ -8,6 +8,9 @@ use walkdir::WalkDir;
 mod path_error;
 pub use path_error::PathError;
 
+#[cfg(all(feature = "verif", not(target_family = "wasm")))]
+pub mod sim;
+
 #[derive(Clone, Debug)]
 pub struct PathSet {
     pub prj: String,
@@ -19,6 +22,10 @@ pub struct PathSet {
 }
 
 pub fn cache_path() -> PathBuf {
+    #[cfg(all(feature = "verif", not(target_family = "wasm")))]
+    if let Some(path) = sim::cache_path_override() {
+        return path;
+    }
     let project_dir = ProjectDirs::from("org", "veryl-lang", "veryl").unwrap();
     project_dir.cache_dir().to_path_buf()
 }
@@ -72,13 +79,19 @@ pub fn gather_files_with_extension<T: AsRef<Path>>(
 pub fn lock_dir<T: AsRef<Path>>(path: T) -> Result<File, PathError> {
     let base_dir = cache_path().join(path);
     let lock = base_dir.join("lock");
+    #[cfg(feature = "verif")]
+    let lock_path = lock.clone();
     let lock = File::create(lock)?;
+    #[cfg(feature = "verif")]
+    sim::lock_blocking(&lock, &lock_path)?;
     fs4::FileExt::lock(&lock)?;
     Ok(lock)
 }
 
 #[cfg(not(target_family = "wasm"))]
 pub fn unlock_dir(lock: File) -> Result<(), PathError> {
+    #[cfg(feature = "verif")]
+    sim::point("unlock", Path::new(""))?;
     fs4::FileExt::unlock(&lock)?;
     Ok(())
 }
@@ -104,7 +117,14 @@ pub fn atomic_write<P: AsRef<Path>>(path: P, contents: &[u8]) -> std::io::Result
         .parent()
         .filter(|x| !x.as_os_str().is_empty())
         .unwrap_or(Path::new("."));
+    #[cfg(feature = "verif")]
+    sim::point("aw.create", path)?;
     let mut file = tempfile::NamedTempFile::new_in(dir)?;
+    #[cfg(feature = "verif")]
+    {
+        let temp = file.path().to_path_buf();
+        sim::temp_point("aw", file.as_file_mut(), &temp, path, contents)?;
+    }
     file.write_all(contents)?;
     // tempfile creates with 0600; widen to 0644 to match a plain write.
     #[cfg(unix)]
@@ -116,6 +136,8 @@ pub fn atomic_write<P: AsRef<Path>>(path: P, contents: &[u8]) -> std::io::Result
     // On Windows, replacing the target while a reader holds it open transiently
     // fails with a sharing violation (PermissionDenied); retry a few times.
     let mut attempts = 0;
+    #[cfg(feature = "verif")]
+    sim::point_keep("aw.rename", path, file.path())?;
     loop {
         match file.persist(path) {
             Ok(_) => return Ok(()),
